@@ -60,6 +60,19 @@ def split(data: bytes):
     return h[0], data[6:]
 
 
+def split_all(data: bytes):
+    """Return [(svc, body), ...] for a byte string holding one or more complete frames (TCP writes)."""
+    out = []
+    off = 0
+    while off + 6 <= len(data):
+        h = parse_header(data[off:])
+        if h is None or h[1] < 6 or off + h[1] > len(data):
+            break
+        out.append((h[0], data[off + 6:off + h[1]]))
+        off += h[1]
+    return out
+
+
 def hpai(ip: str = "0.0.0.0", port: int = 0, tcp: bool = False) -> bytes:
     return bytes((8, 2 if tcp else 1)) + socket.inet_aton(ip) + struct.pack(">H", port)
 
